@@ -11,6 +11,8 @@ def run(tier):
         tmo = 900 if tier == "quick" else 3000
         rp.run_lens("semiring_" + sr, cfg="adjoint_" + sr, limit=LIMIT[tier], timeout=tmo)
         rp.run_lens("adjsubs_" + sr, limit=LIMIT[tier], timeout=tmo)
+    # non-injective substitutions of a leaf (diagonals), whole lens
+    rp.run_lens("adjdiag", timeout=1500)
     out.add_replay(rp, "adjoint")
     out.coverage = check.replay_coverage(
         rp, "every sum-product expression of the (add,mul) and (logaddexp,add) semiring lenses whose tensor leaves are "
